@@ -624,9 +624,57 @@ static void space5_prog (VProg * vp, void *user)
   }
   orc_program_free (p);
 }
+/* scalar operands x parameter classes: every opcode that takes a scalar operand (shift counts, load offsets, resampling
+ * start and step), that operand given as a parameter declared in each of the four public ways, compiled for every
+ * target, the C back end under all 16 flag subsets */
+static void space5_scalar_params (void)
+{
+  OrcOpcodeSet *set = orc_opcode_set_get ("sys");
+  int oi, k, pt, t;
+  for (oi = 0; oi < set->n_opcodes; oi++) {
+    OrcStaticOpcode *o = &set->opcodes[oi];
+    for (k = 1; k < 3; k++) {
+      if (!o->src_size[k]) continue;
+      if (!((o->flags & ORC_STATIC_OPCODE_SCALAR) || op_is_loadoff (o) || op_is_ldres (o))) continue;
+      for (pt = 0; pt < 4; pt++) {
+        long idx = g_idx++;
+        OrcProgram *p;
+        char sig[120], text[300];
+        int j;
+        if (idx < g5_start || (idx % nshards) != shard) continue;
+        p = orc_program_new ();
+        orc_program_set_name (p, "scalar_param");
+        orc_program_add_destination (p, o->dest_size[0], "d1");
+        orc_program_add_source (p, o->src_size[0], "s1");
+        for (j = 1; j < 3; j++) {
+          char nm[8];
+          if (!o->src_size[j]) continue;
+          sprintf (nm, "p%d", j);
+          if (j != k || pt == 0) orc_program_add_parameter (p, o->src_size[j], nm);
+          else if (pt == 1) orc_program_add_parameter_float (p, o->src_size[j], nm);
+          else if (pt == 2) orc_program_add_parameter_int64 (p, o->src_size[j], nm);
+          else orc_program_add_parameter_double (p, o->src_size[j], nm);
+        }
+        if (o->src_size[2]) orc_program_append_2 (p, o->name, 0, ORC_VAR_D1, ORC_VAR_S1, ORC_VAR_P1, ORC_VAR_P1 + 1);
+        else orc_program_append_2 (p, o->name, 0, ORC_VAR_D1, ORC_VAR_S1, ORC_VAR_P1, -1);
+        snprintf (sig, sizeof (sig), "scalar-param/%s/operand%d/%s", o->name, k, pt == 0 ? "param" : pt == 1 ? "floatparam" : pt == 2 ? "longparam" : "doubleparam");
+        snprintf (text, sizeof (text), "%s d1, s1, <scalar operand %d declared with orc_program_add_parameter%s, %d bytes>", o->name, k, pt == 0 ? "" : pt == 1 ? "_float" : pt == 2 ? "_int64" : "_double", o->src_size[k]);
+        st_programs++;
+        for (t = 0; t < NT; t++) {
+          unsigned fl;
+          if (!targets[t]) continue;
+          if (!strcmp (tnames[t], "c")) { for (fl = 0; fl < 16; fl++) try_compile (p, t, fl, 2, sig, text, 0); }
+          else try_compile (p, t, orc_target_get_default_flags (targets[t]), 0, sig, text, 0);
+        }
+        orc_program_free (p);
+      }
+    }
+  }
+}
 static void space5 (long start)
 {
   g5_start = start;
+  space5_scalar_params ();
   pgen_L1 (space5_prog, NULL, PG_INT | PG_FLOAT);
   pgen_L5 (space5_prog, NULL);
   pgen_L6 (space5_prog, NULL, PG_INT | PG_FLOAT);
